@@ -95,10 +95,13 @@ def lockstep_case(rng, nfiles, maxreq, wfaults, sfaults, ops):
         fs.write_fault = wfault
         fs.stat_fault = sfault
         files = []
-        for i in range(nfiles):
-            f = sess.client.open("/f%d" % i, "wb")
-            f.MAX_REQUEST_SIZE = maxreq
-            files.append(f)
+        try:
+            for i in range(nfiles):
+                f = sess.client.open("/f%d" % i, "wb")
+                f.MAX_REQUEST_SIZE = maxreq
+                files.append(f)
+        except L.Hang:
+            return [("hang", "while opening the files")], [], None
         state["armed"] = True
         base = sess.client.request_number
         obs = []
